@@ -1,3 +1,5 @@
+#[cfg(feature = "iggy_verif")]
+use iggy::verif::tokio;
 use crate::archiver::{ArchiverKind, ArchiverKindType};
 use crate::configs::server::{DataMaintenanceConfig, PersonalAccessTokenConfig};
 use crate::configs::system::SystemConfig;
